@@ -397,6 +397,12 @@ func onlyCaller(c *Ctx, rule string, target *ssa.Function, allowed []*ssa.Functi
 				ok = true
 			}
 		}
+		// a helper extracted from an allowed caller: unexported, and itself called only from the allowed set
+		if !ok && ref.IsCall && !token.IsExported(caller.Name()) && caller != target {
+			if callersWithin(p, caller, allowed, 2) {
+				ok = true
+			}
+		}
 		if !ok || !ref.IsCall && false {
 			okAll = false
 			r.Fail(rule, fmt.Sprintf("%s referenced from %s", fnShort(target), fnShort(caller)), p.Pos(ref.Instr.Pos()), "only "+fnNames(allowed)+" may call "+fnShort(target))
@@ -407,6 +413,37 @@ func onlyCaller(c *Ctx, rule string, target *ssa.Function, allowed []*ssa.Functi
 	} else if len(refs) == 0 {
 		r.Fail(rule, fmt.Sprintf("%s has no caller", fnShort(target)), p.Pos(target.Pos()), "expected caller "+fnNames(allowed)+" not found")
 	}
+}
+
+// callersWithin: every reference to fn is a call from an allowed function, or from an
+// unexported helper for which the same holds (depth levels).
+func callersWithin(p *core.Prog, fn *ssa.Function, allowed []*ssa.Function, depth int) bool {
+	refs := p.RefsTo(fn)
+	if len(refs) == 0 || depth < 0 {
+		return false
+	}
+	for _, ref := range refs {
+		if !ref.IsCall {
+			return false
+		}
+		caller := ref.Caller
+		for caller.Parent() != nil {
+			caller = caller.Parent()
+		}
+		ok := false
+		for _, a := range allowed {
+			if caller == a {
+				ok = true
+			}
+		}
+		if !ok && !token.IsExported(caller.Name()) && caller != fn && callersWithin(p, caller, allowed, depth-1) {
+			ok = true
+		}
+		if !ok {
+			return false
+		}
+	}
+	return true
 }
 
 func fnNames(fs []*ssa.Function) string {
